@@ -112,7 +112,9 @@ static void check_state_op(const reflist::List& start, const Op* o, const std::v
 // initial strings, every observer compared after every step
 static std::vector<Op> seq_menu() {
   return {{0, "a", "1"}, {0, "b", "1"}, {0, "m", ""}, {1, "a", "1"}, {1, "b", ""}, {1, "m", "1"}, {1, "0", "1"}, {2, "a", ""}, {2, "b", ""},
-          {3, "a", "1"}, {4, "", ""}, {5, "b=2&a=1", ""}, {5, "", ""}};
+          {3, "a", "1"}, {4, "", ""}, {5, "b=2&a=1", ""}, {5, "", ""},
+          // two names whose UTF-8 byte order and UTF-16 code-unit order disagree, entering through either insertion path
+          {0, HW_STOP, "1"}, {0, U10000, "2"}, {1, HW_STOP, "3"}, {1, U10000, "4"}};
 }
 static std::string seq_wit(const std::string& init, const std::vector<int>& idx) {
   std::string ops;
@@ -162,7 +164,7 @@ int main(int argc, char** argv) {
       std::string in = unhex(json_get_str(doc, "init")), ops = json_get_str(doc, "ops");
       std::vector<int> idx; size_t i = 0;
       while (i < ops.size()) { size_t j = ops.find(',', i); if (j == std::string::npos) j = ops.size(); if (j > i) idx.push_back(atoi(ops.substr(i, j - i).c_str())); i = j + 1; }
-      std::vector<std::string> K2 = K; for (const char* k : {"m", "0", "z", "c"}) K2.push_back(k);
+      std::vector<std::string> K2 = K; for (const char* k : {"m", "0", "z", "c"}) K2.push_back(k);  // K already holds HW_STOP and U10000
       bool ok = run_seq(in, idx, K2, V);
       for (auto& [c, vec] : R.by_class) for (auto& v : vec) printf("REPRODUCED %s\n  %s\n", c.c_str(), v.summary.c_str());
       return ok ? 0 : 1;
@@ -319,9 +321,9 @@ int main(int argc, char** argv) {
   R.count("sort_lists", n3);
   // ---- (v) operation sequences ----------------------------------------------------------------------
   {
-    const int D = int(A.geti("seqdepth", T ? 5 : 3));
+    const int D = int(A.geti("seqdepth", T ? 5 : 4));
     const int nm = int(seq_menu().size());
-    std::vector<std::string> K2 = K; for (const char* k : {"m", "0", "z", "c"}) K2.push_back(k);
+    std::vector<std::string> K2 = K; for (const char* k : {"m", "0", "z", "c"}) K2.push_back(k);  // K already holds HW_STOP and U10000
     uint64_t nseq = 0;
     for (const char* init : {"", "m=1&z=2&c=3&m=4", "b=2&a=1&b=3"})
       for (int d = 1; d <= D; d++) {
